@@ -4,11 +4,14 @@ import OmplModel.Driver.SpaceIO
 Line-protocol driver of the C07 interpolation model (header `spaceinterp`).
 
   space <space>                      -> ok                     (sets the current space)
+  mutate <space>                     -> ok                     (history op of the harness; same as `space` here)
+  sanity                             -> sanity -               (the library's own sanityChecks; harness only)
   interp <from> <to> <t>             -> r <state> | sb <0/1> | ef <0/1> | et <0/1> | old <state>
   interp2 <from> <to> <s> <u>        -> s3 <state> | r <state> | direct <state>
 
 `r` = interpolate(from,to,t); `sb` = satisfiesBounds(r); `ef`/`et` = equalStates(r,from)/(r,to);
-`old` = the same interpolation with the SO(2) clause of the code before the F4 fix.
+`old` = the same interpolation with the SO(2) clause of the code before the F4 fix; `*_f61` = the same with the
+SO(2) clause of the proposed F61 repair (notes/C07-fix-F61.diff).
 `interp2`: s3 = interpolate(from,to,s); r = interpolate(s3,to,u); direct = interpolate(from,to,s+(1-s)*u).
 `oob-input` when from or to is not in bounds.  States are printed as their leaf values (doubles as u64 bit patterns).
 -/
@@ -16,6 +19,46 @@ namespace OmplModel.Driver.SpaceInterpDrv
 open OmplModel OmplModel.Driver OmplModel.SpaceInterp
 
 abbrev DSt := Option (Space Float)
+
+/-- the shared grammar (`pSpace`) plus the spaces this engine adds: `spacetime <vmax> <tw> u|b <lo> <hi> <space>`
+= SpaceTimeStateSpace, the compound `[(1 - tw, space), (tw, time)]` its constructor builds (it does not
+override interpolate); `empty` = EmptyStateSpace = R^0; at top level `cfw <space>` = CForestStateSpaceWrapper,
+which forwards interpolate to the space and shares its states. -/
+partial def pSpaceX : P (Space Float)
+  | "cmp" :: r => do
+    let (k, r) ← pNat r
+    let rec go : Nat → List String → Option (Space Float × List String)
+      | 0, r => some (.cnil, r)
+      | n + 1, r => do
+        let (w, r) ← pFloat r
+        let (h, r) ← pSpaceX r
+        let (t, r) ← go n r
+        pure (.ccons w h t, r)
+    go k r
+  | "wrap" :: r => do
+    let (s, r) ← pSpaceX r
+    pure (.wrap s, r)
+  | "spacetime" :: r => do
+    let (_vmax, r) ← pFloat r
+    let (tw, r) ← pFloat r
+    match r with
+    | "u" :: r => do
+      let (s, r) ← pSpaceX r
+      pure (.ccons (1 - tw) s (.ccons tw (.time false 0 0) .cnil), r)
+    | "b" :: r => do
+      let (lo, r) ← pFloat r
+      let (hi, r) ← pFloat r
+      let (s, r) ← pSpaceX r
+      pure (.ccons (1 - tw) s (.ccons tw (.time true lo hi) .cnil), r)
+    | _ => none
+  | "empty" :: r => some (.rv [] [], r)
+  | r => pSpace r
+
+def pTop : P (Space Float)
+  | "cfw" :: r => do
+    let (s, r) ← pSpaceX r
+    pure (.wrap s, r)
+  | r => pSpaceX r
 
 def init (ts : List String) : Option DSt :=
   match ts with
@@ -29,9 +72,14 @@ def showSt (s : St Float) : String := joinSp (showState s)
 def step (st : DSt) (ts : List String) : DSt × String :=
   match ts with
   | "space" :: rest =>
-    match pSpace rest with
+    match pTop rest with
     | some (sp, []) => (some sp, "ok")
     | _ => (st, "bad-op")
+  | "mutate" :: rest =>   -- the implementation mutates its space object in place; the model just takes the new one
+    match st, pTop rest with
+    | some _, some (sp, []) => (some sp, "ok")
+    | _, _ => (st, "bad-op")
+  | ["sanity"] => if st.isSome then (st, "sanity -") else (st, "bad-op")
   | "interp" :: rest =>
     match st with
     | none => (st, "bad-op")
@@ -45,7 +93,8 @@ def step (st : DSt) (ts : List String) : DSt × String :=
         if !(inBounds sp a && inBounds sp b) then (st, "oob-input") else
         let r := interpolate sp a b t
         let o := interpolateOld sp a b t
-        (st, s!"r {showSt r} | sb {b01 (inBounds sp r)} | ef {b01 (eqStates sp r a)} | et {b01 (eqStates sp r b)} | old {showSt o}")
+        let x := interpolateFix61 sp a b t
+        (st, s!"r {showSt r} | sb {b01 (inBounds sp r)} | ef {b01 (eqStates sp r a)} | et {b01 (eqStates sp r b)} | old {showSt o} | r_f61 {showSt x} | sb_f61 {b01 (inBounds sp x)} | ef_f61 {b01 (eqStates sp x a)} | et_f61 {b01 (eqStates sp x b)}")
       | none => (st, "bad-op")
   | "interp2" :: rest =>
     match st with
@@ -62,7 +111,10 @@ def step (st : DSt) (ts : List String) : DSt × String :=
         let s3 := interpolate sp a b s
         let r := interpolate sp s3 b u
         let d := interpolate sp a b (s + (1 - s) * u)
-        (st, s!"s3 {showSt s3} | r {showSt r} | direct {showSt d}")
+        let s3x := interpolateFix61 sp a b s
+        let rx := interpolateFix61 sp s3x b u
+        let dx := interpolateFix61 sp a b (s + (1 - s) * u)
+        (st, s!"s3 {showSt s3} | r {showSt r} | direct {showSt d} | s3_f61 {showSt s3x} | r_f61 {showSt rx} | direct_f61 {showSt dx}")
       | none => (st, "bad-op")
   | _ => (st, "bad-op")
 
